@@ -350,6 +350,10 @@ type fdCase struct {
 	Origin  bool
 	Plan    uint64
 	Procs   int
+	// Dirty: the destination handed to Gradient/Jacobian/Hessian is a reused
+	// one holding stale non-zero values (the concurrent paths accumulate
+	// into it, the serial ones assign).
+	Dirty bool
 }
 
 func fdFormula(i int) fd.Formula {
@@ -411,10 +415,24 @@ func checkFD(c fdCase) *vk.Failure {
 		r := vk.Call(func() {
 			switch c.Kind {
 			case 0:
-				o.vals = fd.Gradient(nil, f, x, set)
+				var dst []float64
+				if c.Dirty {
+					dst = make([]float64, n)
+					for i := range dst {
+						dst[i] = float64(7 + i)
+					}
+				}
+				o.vals = fd.Gradient(dst, f, x, set)
 			case 1:
 				m := 3
 				dst := mat.NewDense(m, n, nil)
+				if c.Dirty {
+					for i := 0; i < m; i++ {
+						for j := 0; j < n; j++ {
+							dst.Set(i, j, float64(5+i-j))
+						}
+					}
+				}
 				js := &fd.JacobianSettings{Formula: formula, Step: step, Concurrent: conc}
 				fd.Jacobian(dst, func(yv, xv []float64) {
 					calls.Add(1)
@@ -428,6 +446,13 @@ func checkFD(c fdCase) *vk.Failure {
 				o.vals = append([]float64(nil), dst.RawMatrix().Data...)
 			case 2:
 				dst := mat.NewSymDense(n, nil)
+				if c.Dirty {
+					for i := 0; i < n; i++ {
+						for j := i; j < n; j++ {
+							dst.SetSym(i, j, float64(3+i+j))
+						}
+					}
+				}
 				fd.Hessian(dst, f, x, set)
 				for i := 0; i < n; i++ {
 					for j := 0; j < n; j++ {
@@ -512,6 +537,7 @@ func TestFDConcurrent(t *testing.T) {
 			Origin:  rapid.Bool().Draw(t, "origin"),
 			Plan:    rapid.Uint64().Draw(t, "plan"),
 			Procs:   rapid.SampledFrom(procsList).Draw(t, "procs"),
+			Dirty:   rapid.Bool().Draw(t, "dirty"),
 		}
 		c.X = rapid.SliceOfN(rapid.IntRange(-8, 8), n, n).Draw(t, "x")
 		c.L = rapid.SliceOfN(rapid.IntRange(-3, 3), n, n).Draw(t, "l")
@@ -557,6 +583,7 @@ type optOutcome struct {
 	res                         *optimize.Result
 	err                         error
 	funcCalls, gradCalls, hessC int64
+	minF                        float64
 }
 
 func runOpt(c optCase, y *yielder) (o optOutcome, panicText string) {
@@ -577,6 +604,8 @@ func runOpt(c optCase, y *yielder) (o optOutcome, panicText string) {
 		x0[i] = float64(g.Intn(17) - 8)
 	}
 	var fc, gc, hc, sc atomic.Int64
+	var minMu sync.Mutex
+	o.minF = math.Inf(1)
 	prob := optimize.Problem{
 		Func: func(x []float64) float64 {
 			fc.Add(1)
@@ -590,6 +619,11 @@ func runOpt(c optCase, y *yielder) (o optOutcome, panicText string) {
 				}
 				s -= b[i] * x[i]
 			}
+			minMu.Lock()
+			if s < o.minF {
+				o.minF = s
+			}
+			minMu.Unlock()
 			return s
 		},
 		Grad: func(grad, x []float64) {
@@ -729,6 +763,13 @@ func checkOpt(c optCase) *vk.Failure {
 		rec := int64(0)
 		_ = rec
 	}
+	// The search methods without a model (GuessAndCheck, ListSearch) return the
+	// best of the points they evaluated; every evaluation that completed is
+	// counted in Stats (asserted above), so none of them may be lost when the
+	// run is stopped while evaluations are in flight.
+	if (c.Method == 7 || c.Method == 8) && o.err == nil && st.MajorIterations > 0 && !vk.SameBits(o.res.F, o.minF) {
+		return vk.Failf("opt-best-evaluation-lost/"+name, "%s concurrent=%d cause=%d limit=%d: Result.F = %v but the smallest of the %d values the objective returned is %v", name, c.Concurrent, c.Cause, c.Limit, o.res.F, o.funcCalls, o.minF)
+	}
 	if o.err != nil && !(errors.Is(o.err, errRecorder) || errors.Is(o.err, errStatus)) {
 		// other errors (ErrLinesearcherFailure etc.) are legitimate outcomes on tiny limits
 		vk.Class("opt-err/" + fmt.Sprintf("%T", o.err))
@@ -846,6 +887,67 @@ func script(seed uint64, ops []int) uint64 {
 			var p mat.Dense
 			p.Product(a, b, a)
 			put(&p)
+		case 8:
+			// QR of a tall matrix read element by element before Q is
+			// formed: At takes a cleared scratch vector from the pool
+			m := n + g.Intn(6)
+			tall := mat.NewDense(m, n, nil)
+			for i := 0; i < m; i++ {
+				for j := 0; j < n; j++ {
+					tall.Set(i, j, g.Finite())
+				}
+			}
+			var qr mat.QR
+			qr.Factorize(tall)
+			put(&qr)
+		case 9:
+			var lu mat.LU
+			lu.Factorize(a)
+			det, sign := lu.LogDet()
+			fmt.Fprintf(h, "%x,%v,%x,", math.Float64bits(det), sign, math.Float64bits(lu.Cond()))
+		case 10:
+			m := n + g.Intn(6)
+			wide := mat.NewDense(n, m, nil)
+			for i := 0; i < n; i++ {
+				for j := 0; j < m; j++ {
+					wide.Set(i, j, g.Finite())
+				}
+			}
+			var lq mat.LQ
+			lq.Factorize(wide)
+			var x mat.Dense
+			if err := lq.SolveTo(&x, false, b); err == nil {
+				put(&x)
+			}
+		case 11:
+			m := n + g.Intn(6)
+			tall := mat.NewDense(m, n, nil)
+			for i := 0; i < m; i++ {
+				for j := 0; j < n; j++ {
+					tall.Set(i, j, g.Finite())
+				}
+			}
+			var qr mat.QR
+			qr.Factorize(tall)
+			var x mat.Dense
+			if err := qr.SolveTo(&x, true, b); err == nil {
+				put(&x)
+			}
+		case 12:
+			var s mat.SymDense
+			s.SymOuterK(1, a)
+			var ch mat.Cholesky
+			if ch.Factorize(&s) {
+				fmt.Fprintf(h, "%x,%x,", math.Float64bits(ch.LogDet()), math.Float64bits(ch.Cond()))
+				xv := mat.NewVecDense(n, nil)
+				for i := 0; i < n; i++ {
+					xv.SetVec(i, g.Finite())
+				}
+				ch.SymRankOne(&ch, 0.5, xv)
+				var t mat.TriDense
+				ch.UTo(&t)
+				put(&t)
+			}
 		default:
 			var inv mat.Dense
 			if err := inv.Inverse(a); err == nil {
@@ -868,6 +970,14 @@ func checkPool(c poolCase) *vk.Failure {
 	alone := make([]uint64, c.K)
 	for i := 0; i < c.K; i++ {
 		alone[i] = script(c.Seeds[i], c.Ops)
+	}
+	// A second serial pass in the opposite order: every script now finds the
+	// workspace pools in the state other scripts left them in. This part of the
+	// oracle does not depend on scheduling at all.
+	for i := c.K - 1; i >= 0; i-- {
+		if again := script(c.Seeds[i], c.Ops); again != alone[i] {
+			return vk.Failf("pool-history-dependent", "script %v on seed %d gives a different result when it runs after other scripts on the same goroutine (state left in a shared workspace pool)", c.Ops, c.Seeds[i])
+		}
 	}
 	together := make([]uint64, c.K)
 	var wg sync.WaitGroup
@@ -897,7 +1007,7 @@ func TestPoolIndependence(t *testing.T) {
 		return poolCase{
 			K:     k,
 			Seeds: rapid.SliceOfN(rapid.Uint64(), k, k).Draw(t, "seeds"),
-			Ops:   rapid.SliceOfN(rapid.IntRange(0, 7), 1, 8).Draw(t, "ops"),
+			Ops:   rapid.SliceOfN(rapid.IntRange(0, 13), 1, 8).Draw(t, "ops"),
 			Procs: rapid.SampledFrom(procsList).Draw(t, "procs"),
 		}
 	}, checkPool)
